@@ -27,6 +27,10 @@ def jobs(tier, seed):
                 continue
             j["family"] = algo + ":" + j["family"]
             J.append(j)
+    # MPR starts from the colliders' center(): an off-centre mesh in rotated orientations
+    for si in (4, 5, 7):
+        J.append({"family": "mpr:box_tetraoffmesh", "args": {"a": GC.POLY_CORPUS[0], "b": GC.POLY_CORPUS[13], "sweep": GC.SWEEPS[si],
+                                                             "a_pose": 0, "swap": si == 5, "algo": "mpr"}})
     if tier == "quick":
         # the primitives flavour only accepts boxes among the polytopes: give it every sweep on the box pairs
         P = GC.POLY_CORPUS
